@@ -55,7 +55,7 @@ def do(z, op):
     return None
 
 
-def probe(img: bytes, password, maxlen: int, progress, label):
+def probe(img: bytes, password, maxlen: int, progress, label, as_file: bool = False):
     """Run open + all call sequences.  -> list of (symptom, detail).  Never raises except SoftTimeout at the outermost level."""
     import py7zr
 
@@ -82,8 +82,20 @@ def probe(img: bytes, password, maxlen: int, progress, label):
         finally:
             signal.setitimer(signal.ITIMER_REAL, 0)
 
+    if as_file:
+        # a real file opened by name: a buffered reader allocates what a read() asks for before it looks at the file size
+        fpath = os.path.join(os.getcwd(), "c05-input.7z")
+        with open(fpath, "wb") as fh:
+            fh.write(img)
+
+        def source():
+            return fpath
+    else:
+        def source():
+            return io.BytesIO(img)
+
     progress(label + " open")
-    st, z = timed(lambda: py7zr.SevenZipFile(io.BytesIO(img), password=password), "open")
+    st, z = timed(lambda: py7zr.SevenZipFile(source(), password=password), "open")
     if st != "ok":
         return out, counts
     counts["opened"] = 1
@@ -93,7 +105,7 @@ def probe(img: bytes, password, maxlen: int, progress, label):
         pass
     for seq in sequences(maxlen):
         progress(label + " " + ",".join(seq))
-        st, z = timed(lambda: py7zr.SevenZipFile(io.BytesIO(img), password=password), "open")
+        st, z = timed(lambda: py7zr.SevenZipFile(source(), password=password), "open")
         if st != "ok":
             break
         bad = False
@@ -133,13 +145,13 @@ def shard(task):
 
     slow = {"n": 0}
 
-    def run(img, pw, label, sig_extra, case):
+    def run(img, pw, label, sig_extra, case, as_file=False):
         if slow["n"] >= 3:
             # three inputs of this shard already blew the budget: the remaining ones are left unexplored (counted), the verdict is out
             sh.count("inputs_skipped_after_3_budget_violations_in_shard")
             return
         rss0 = resource.getrusage(resource.RUSAGE_SELF).ru_maxrss
-        viol, counts = probe(img, pw, maxlen, progress, label)
+        viol, counts = probe(img, pw, maxlen, progress, label, as_file=as_file)
         if metered and (resource.getrusage(resource.RUSAGE_SELF).ru_maxrss - rss0) * 1024 > MEM_HEADROOM:
             viol.append(("memory", "peak resident set grew by more than 1 GiB while processing this input"))
         sh.case(digest(img), nontrivial=bool(counts["opened"]), sample={"input": label, "bytes": len(img), "opened": bool(counts["opened"]), "calls": counts["calls"]} if len(sh.samples) < 2 and counts["opened"] else None)
@@ -185,6 +197,27 @@ def shard(task):
                 continue
             run(img, base["password"], f"{base['name']} {label}", {"input": "token", "field": label.split(":")[0].split("[")[0]},
                 {"kind": "tokens", "base": bidx, "label": label, "maxlen": maxlen})
+    elif kind == "sighdr":
+        # the 32-byte signature header: NextHeaderOffset / NextHeaderSize / NextHeaderCRC set to the boundary values, StartHeaderCRC
+        # re-sealed; each input both as a stream and as a real file opened by name
+        import struct
+        import zlib
+
+        for bidx in arg:
+            base = basegen.all_bases(tier)[bidx]
+            blob = base["blob"]
+            ofs, size, crc = struct.unpack("<QQL", blob[12:32])
+            for field, cur in (("offset", ofs), ("size", size), ("crc", crc)):
+                vals = [v for v in mutations.NUM_VALUES if v < (1 << 64)] + [len(blob), len(blob) - 32, (1 << 31), (1 << 31) - 1] if field != "crc" else [0, 0xFFFFFFFF, crc ^ 1]
+                for v in sorted(set(vals)):
+                    if v == cur:
+                        continue
+                    o, z_, c = (v, size, crc) if field == "offset" else ((ofs, v, crc) if field == "size" else (ofs, size, v))
+                    tail = struct.pack("<QQL", o, z_, c)
+                    img = blob[:8] + struct.pack("<L", zlib.crc32(tail) & 0xFFFFFFFF) + tail + blob[32:]
+                    for as_file in (False, True):
+                        run(img, base["password"], f"{base['name']} next-header {field}={v} {'file' if as_file else 'stream'}", {"input": "signature-header", "field": field, "source": "file" if as_file else "stream"},
+                            {"kind": "sighdr", "base": bidx, "tier": tier, "field": field, "value": v, "as_file": as_file, "maxlen": maxlen}, as_file=as_file)
     elif kind == "password":
         bs = [b for b in basegen.all_bases(tier) if b["password"]]
         for b in bs:
@@ -212,6 +245,18 @@ def replay(case):
         for label, toks, outer in mutations.mutants(base, "all"):
             if label == case["label"]:
                 return probe(mutations.seal(base, toks, outer), base["password"], maxlen, lambda s: None, label)[0]
+    if case["kind"] == "sighdr":
+        import struct
+        import zlib
+
+        base = basegen.all_bases(case["tier"])[case["base"]]
+        blob = base["blob"]
+        ofs, size, crc = struct.unpack("<QQL", blob[12:32])
+        v = case["value"]
+        o, z_, c = (v, size, crc) if case["field"] == "offset" else ((ofs, v, crc) if case["field"] == "size" else (ofs, size, v))
+        tail = struct.pack("<QQL", o, z_, c)
+        img = blob[:8] + struct.pack("<L", zlib.crc32(tail) & 0xFFFFFFFF) + tail + blob[32:]
+        return probe(img, base["password"], maxlen, lambda s: None, "sighdr", as_file=case["as_file"])[0]
     if case["kind"] == "splice":
         bs = basegen.all_bases(case["tier"])
         img = bs[case["a"]]["blob"][: case["ca"]] + bs[case["b"]]["blob"][case["cb"]:]
@@ -245,6 +290,7 @@ def main(tier="quick", seed=0, only=None):
         step = 150
         tasks += [("tokens", (i, lo, min(lo + step, n)), maxlen, tier) for lo in range(0, n, step)]
     tasks.append(("password", None, maxlen, tier))
+    tasks += [("sighdr", [i], 1, tier) for i in range(min(len(bases), 4 if tier == "quick" else 12))]
     import random
 
     random.Random(seed).shuffle(tasks)
@@ -291,7 +337,7 @@ def main(tier="quick", seed=0, only=None):
             "tokens set to {0,1,2^7k-1,2^7k,2^32-1,2^32,2^63-1,2^63,2^64-1}, every property id replaced by every id 0..26 and FF, every bit "
             "of every flag byte, bit vectors, CRCs, FILETIMEs, names, method ids, AES properties; for packed headers the same single-token mutations of the outer streams info that describes the packed header; two deviations: a count NUMBER set to 2^32 / 2^63-1 together with one property id replaced by End (thorough: by every id)), each section dropped / duplicated / "
             "swapped with its successor, FilesInfo property sizes left stale and re-fitted; all outer CRCs re-sealed (raw, LZMA- and "
-            f"AES-encoded headers); missing and 5 wrong passwords. On every input that opens: every call sequence of length <= {maxlen} (byte-level damage: <= 2) over "
+            f"AES-encoded headers); missing and 5 wrong passwords; the signature header's NextHeaderOffset / Size / CRC set to the boundary values with StartHeaderCRC re-sealed, each as a stream and as a real file opened by name. On every input that opens: every call sequence of length <= {maxlen} (byte-level damage: <= 2) over "
             f"{OPS} on one session (incl. extract twice without reset). Oracle: each call returns or raises an Exception within 8 s + 50 us/byte, "
             "no MemoryError with RLIMIT_AS = baseline + 1 GiB, worker process alive. Non-trivial = the input got past open()."
         ),
